@@ -36,7 +36,7 @@ Proof.
 Qed.
 
 (* pods are no part of the invariant *)
-Lemma minv_pods st pods' : minv st -> minv (mkM (g_total st) (g_quotas st) (g_calcs st) pods').
+Lemma minv_pods st pods' : minv st -> minv (remake st (g_total st) (g_quotas st) (g_calcs st) pods').
 Proof. intros [H1 H2 H3 H4 H5]. constructor; assumption. Qed.
 
 Lemma live_unique st k mq e : minv st -> afind k (g_quotas st) = Some mq -> In e (g_quotas st) -> fst e = k -> snd e = mq.
